@@ -238,8 +238,8 @@ Proof. exact sync_schedule_decides. Qed.
 Print Assumptions C03_sync_round_decides_network.
 
 (* the link to the value-level argument: the machines abstracted by [abs] (power, lock round /
-   locked block hash, valid round / valid block hash) satisfy Sync.v's invariant — in the weaker
-   form Inv' that the code can have, see C03_lock_above_valid_reachable — with the known polkas, the unlock rule has been applied (see C03_sync_without_settled_refuted), and the
+   locked block hash, valid round / valid block hash) satisfy the part InvL of Sync.v's invariant that the prevote step needs (locks backed by
+   polkas — discharged from reachability by C03_reachable_inv_partial — and one polka per round) with the known polkas, the unlock rule has been applied (see C03_sync_without_settled_refuted), and the
    proposal is the one Sync.v's good round asks for (premise of C03_good_round_decides) *)
 Theorem C03_sync_round_decides_on_model :
   forall (vals : valset) (h r : Z) (p : proposal) (b : block) (hb : N) (ph : psh)
@@ -251,7 +251,7 @@ Theorem C03_sync_round_decides_on_model :
     (forall m, In m ms -> exists a pw, nth_error vals (m_idx m) = Some (a, pw) /\ a <> 0%N /\ 0 <= pw) ->
     (forall m, In m ms -> ready_core (m_env m) h r p b hb ph (map m_idx ms) vals (m_state m) /\
                           lock_wf r b hb ph (m_state m)) ->
-    Inv' pol (nodes vals ms) ->
+    InvL pol (nodes vals ms) ->
     (forall n, In n (nodes vals ms) -> unlock pol n = n) ->
     In mp ms ->
     hb = proposal_of fresh (unlock pol (abs (power_of vals (m_idx mp)) (m_state mp))) ->
@@ -458,3 +458,127 @@ Example C03_sync_round_faulty_nonvacuous :
            ex_ms = true /\
    length (scheduleF 1 ex_p ex_b (1%N, 70%N) ex_L2 ex_L3 (ex_machine 0)) = 14%nat).
 Proof. exact (conj ex_faulty_hyps ex_all_decide_faulty). Qed.
+
+(* the link to Sync.v's good round (as C03_sync_round_decides_on_model) with the faulty validators
+   voting during the round; the bound on the power outside the correct validators follows from
+   3 * faulty_power < total *)
+Theorem C03_sync_round_decides_on_model_faulty :
+  forall (vals : valset) (h r : Z) (p : proposal) (b : block) (hb : N) (ph : psh)
+         (sig : nat -> N -> N) (peer : nat -> N) (ms : list machine) (L2 L3 : machine -> list item)
+         (pol : list polka) (fresh : value) (mp : machine) (faulty_power : Z),
+    pr_bid p = (hb, ph) -> b_hash b = hb -> b_valid b = true -> fst ph = 1%N ->
+    NoDup (map m_idx ms) ->
+    (forall m, In m ms -> is_validator (m_env m) = true) ->
+    (forall m, In m ms -> exists a pw, nth_error vals (m_idx m) = Some (a, pw) /\ a <> 0%N /\ 0 <= pw) ->
+    (forall m, In m ms -> ready_core (m_env m) h r p b hb ph (map m_idx ms) vals (m_state m) /\
+                          lock_wf r b hb ph (m_state m)) ->
+    InvL pol (nodes vals ms) ->
+    (forall n, In n (nodes vals ms) -> unlock pol n = n) ->
+    In mp ms ->
+    hb = proposal_of fresh (unlock pol (abs (power_of vals (m_idx mp)) (m_state mp))) ->
+    Model.total_power vals = Sync.total_power (nodes vals ms) + faulty_power -> 0 <= faulty_power ->
+    3 * faulty_power < Model.total_power vals ->
+    ((forall n, In n (map (unlock pol) (nodes vals ms)) -> n_lock n = None) \/
+     (exists star, is_latest pol star /\ snd star = Some hb)) ->
+    powers_nonneg vals ->
+    (forall m, In m ms -> forall pv pc,
+       lookup_round r (hv_sets (cs_votes (m_state m))) = Some (pv, pc) ->
+       extra hb ph (idxs ms) pv /\ extra hb ph (idxs ms) pc) ->
+    (forall m, In m ms ->
+       correct_part (L2 m) = PV vals h p b ph sig peer ms /\
+       (forall v pr, In (Faulty v pr) (L2 m) -> faulty_vote h r (idxs ms) PREVOTE v)) ->
+    (forall m, In m ms ->
+       correct_part (L3 m) = PCF vals h p b ph sig peer ms L2 /\
+       (forall v pr, In (Faulty v pr) (L3 m) -> faulty_vote h r (idxs ms) PRECOMMIT v)) ->
+    forall m, In m ms ->
+      In (ODecide h r hb) (concat (snd (run (m_env m) (m_state m) (scheduleF h p b ph L2 L3 m)))).
+Proof. exact sync_round_decides_on_model_faulty. Qed.
+Print Assumptions C03_sync_round_decides_on_model_faulty.
+
+(* non-vacuity of the locked / POL-round path: three machines that all locked block 7 in round 0
+   (no decision there), at (1, 1, Propose); the proposer re-proposes it with POL round 0: the
+   hypotheses of C03_sync_round_decides_network hold and every machine decides in round 1 *)
+Example C03_sync_round_locked_nonvacuous :
+  map (fun m => (cs_round (m_state m), cs_step (m_state m), cs_lround (m_state m), cs_lblock (m_state m), cs_proposal (m_state m)))
+      ex2_ms =
+  [(1, SPropose, 0, Some ex_b, None); (1, SPropose, 0, Some ex_b, None); (1, SPropose, 0, Some ex_b, None)] /\
+  (forall m, In m ex2_ms ->
+     ready (m_env m) 1 1 ex2_p ex_b 7%N (1%N, 70%N) (map m_idx ex2_ms) ex_vals (m_state m)) /\
+  forallb (fun m => existsb is_decide1
+                      (concat (snd (run (m_env m) (m_state m) (schedule ex_vals 1 ex2_p ex_b (1%N, 70%N) ex_sig ex_peer ex2_ms)))))
+          ex2_ms = true.
+Proof. exact (conj ex2_locked_states (conj ex2_ready ex2_all_decide)). Qed.
+
+(* ================================================================== part of the invariant discharged
+   from reachability (C03/Backed.v), for every machine of the code model and ALL its runs from
+   the initial state: the lock is backed by a polka the machine holds (+2/3 prevotes of the lock
+   round for the locked block recorded in its vote sets), and so is the valid block; in Sync.v's
+   terms, clauses inv_lock and inv_valid of Inv / Inv' hold of the abstracted machine for every
+   pol that contains the polkas it holds.  (Clause inv'_lock_valid and "one polka per round"
+   across machines are not discharged.) *)
+From TM Require Import C03.Backed.
+
+Theorem C03_reachable_lock_backed :
+  forall (E : env) (height : Z) (lc : option voteset) (ins : list input),
+    let s := fst (run E (init_state E height lc) ins) in
+    (forall lb, cs_lblock s = Some lb ->
+       exists ph, o_maj23 (prevotes (cs_votes s) (cs_lround s)) = Some (Some (b_hash lb, ph))) /\
+    (forall vb, cs_vblock s = Some vb ->
+       exists ph, o_maj23 (prevotes (cs_votes s) (cs_vround s)) = Some (Some (b_hash vb, ph))).
+Proof. exact reachable_backed. Qed.
+Print Assumptions C03_reachable_lock_backed.
+
+Theorem C03_reachable_inv_partial :
+  forall (E : env) (height : Z) (lc : option voteset) (ins : list input) (pw : Z) (pol : list polka),
+    let s := fst (run E (init_state E height lc) ins) in
+    (forall rr v ph, o_maj23 (prevotes (cs_votes s) rr) = Some (Some (v, ph)) -> In (rr, Some v) pol) ->
+    (forall lr lv, n_lock (abs pw s) = Some (lr, lv) -> In (lr, Some lv) pol) /\
+    (forall vr vv, n_valid (abs pw s) = Some (vr, vv) -> In (vr, Some vv) pol).
+Proof. exact reachable_abs_backed. Qed.
+Print Assumptions C03_reachable_inv_partial.
+
+(* even the weaker clause (valid round >= lock round OR valid block = locked block) is not an
+   invariant of the code: a reachable machine locked on block 5 in round 2 whose valid block is
+   block 7 of round 1; as proposer it would re-propose 7 although the latest polka is for 5, so
+   C03_locked_node_is_good_proposer(_weak) does not transfer to the code for such a node (a
+   wasted round; C03/Unsettled.v) *)
+Theorem C03_lock_on_other_than_valid_reachable :
+  exists (E : env) (ins : list input),
+    let s := fst (run E (init_state E 1 None) ins) in
+    let n := abs 10 s in
+    let pol : list polka := [(0, Some 5%N); (1, Some 7%N); (2, Some 5%N)] in
+    cs_halted s = false /\
+    (forall rr v, In (rr, Some v) pol -> exists ph, o_maj23 (prevotes (cs_votes s) rr) = Some (Some (v, ph))) /\
+    n_lock n = Some (2, 5%N) /\ n_valid n = Some (1, 7%N) /\
+    ~ Inv' pol [n] /\
+    is_latest pol (2, Some 5%N) /\ proposal_of 9%N (unlock pol n) = 7%N.
+Proof. exact lock_on_other_than_valid_reachable. Qed.
+Print Assumptions C03_lock_on_other_than_valid_reachable.
+
+(* what the prevote step of a good round needs of the invariant: locks backed by polkas and one
+   polka per round (InvL, implied by Inv' and Inv); the valid-block clauses only concern what a
+   proposer proposes, which is the premise *)
+Theorem C03_good_round_prevotes :
+  forall (pol : list polka) (nodes : list node) (prop : value),
+    InvL pol nodes ->
+    ((forall n, In n (map (unlock pol) nodes) -> n_lock n = None) \/
+     (exists star, is_latest pol star /\ snd star = Some prop)) ->
+    forall n, In n (map (unlock pol) nodes) -> prevote_of prop n = prop.
+Proof. exact good_round_prevotes. Qed.
+Print Assumptions C03_good_round_prevotes.
+
+Theorem C03_inv_weaken_lock :
+  forall (pol : list polka) (nodes : list node), Inv' pol nodes -> InvL pol nodes.
+Proof. exact Inv'_InvL. Qed.
+Print Assumptions C03_inv_weaken_lock.
+
+(* the repair proposed for F70 (fixes/F70-*.diff), transcribed (C03/FixF70.v: unlock_known,
+   do_prevote_fixed), evaluated on the refutation's machine: it is unlocked exactly as Sync.v's
+   unlock rule says and prevotes the proposal *)
+From TM Require Import C03.FixF70.
+Example C03_fix_F70_on_witness :
+  cs_lblock (unlock_known 2 w_state) = None /\
+  n_lock (abs 10 (unlock_known 2 w_state)) = n_lock (unlock w_pol (abs 10 w_state)) /\
+  snd (do_prevote_fixed w_env 2 (set_prop (Some w_p) (Some w_b) (Some (one_part (1%N, 70%N))) w_state)) =
+    [OSignVote PREVOTE 1 2 (Some (7%N, (1%N, 70%N)))].
+Proof. exact fixed_unlocks_witness. Qed.
